@@ -63,6 +63,7 @@ def plan(tier):
             units += [('terms', sort, n, k, sh) for k in range(sh)]
     units += [('pairs', b['pair_nodes'], k, NSHARD) for k in range(NSHARD)]
     units.append(('api', 0, 0, 1))
+    units.append(('opmatrix', 0, 0, 1))
     return units
 
 
@@ -448,6 +449,49 @@ def run(unit):
                         ALIASES.clear()
             if i % 2003 == 0:
                 r.sample({'term': txt(t)})
+    elif unit[0] == 'opmatrix':
+        # every comparison, connective and inclusion at the top of a predicate (and once below `not`), over plain /
+        # alias / literal operands: negate, both replacements and the event rewrite on each; join over all pairs
+        opnds = ['x', 'y', '@A.x', '0', '1', '-1', 'x + 1']
+        texts = []
+        for op in ('=', '!=', '<', '<=', '>', '>='):
+            for a in opnds:
+                for b_ in opnds:
+                    if a != b_ and not (a[0] in '01-' and b_[0] in '01-'):
+                        texts.append(f'{a} {op} {b_}')
+        for op in ('and', 'or', 'implies', 'iff'):
+            for a in ('p', 'x > 0', '@A.p', 'not q'):
+                for b_ in ('q', 'y <= 1', '@A.x >= x'):
+                    texts.append(f'{a} {op} {b_}')
+        texts += ['x in {0, 1}', 'x in [0 to 1]', 'not x in ![0 to @A.x]', 'x in xs', 'forall i in xs: @i >= x', 'exists i in xs: @i != @A.x']
+        texts += [f'not ({t})' for t in texts[::7]]
+        preds = []
+        for text in texts:
+            st, p = impl.try_parse('pred', '{ ' + text + ' }')
+            if st != 'ok':
+                r.notes['opmatrix rejected:' + st] += 1
+                continue
+            preds.append((text, p))
+            r.count('evaluations')
+            r.count('states')
+            probs = check_negate(p, r) + check_replacements(p, 'pred', absyn.lift(p), r) + check_event(p, text, r)
+            try:
+                probs += [(k + ' (negated twice)', d) for k, d in check_negate(p.negate(), r)]
+            except Exception:  # noqa: BLE001
+                pass
+            seen = set()
+            for kind, detail in probs:
+                if kind in seen:
+                    continue
+                seen.add(kind)
+                r.violation(kind + ' [operator matrix]', {'opmatrix': text}, detail, size=len(text))
+            r.count('validated')
+        for (t1, p1) in preds[::5]:
+            for (t2, p2) in preds[::9]:
+                r.count('evaluations')
+                for kind, detail in check_join(p1, p2, r):
+                    r.violation(kind + ' [operator matrix]', {'opmatrix': t1 + ' // ' + t2}, detail, size=len(t1) + len(t2))
+        r.sample({'opmatrix': 'x >= 0'})
     elif unit[0] == 'api':
         import hpl.ast as A
 
@@ -495,6 +539,8 @@ def run(unit):
 def replay(w):
     from hplmc.checks.c08 import _detuple
 
+    if 'opmatrix' in w:
+        return [{'sig': v['sig'], 'detail': v['detail']} for v in run(('opmatrix', 0, 0, 1)).violations]
     if 'api' in w:
         return [{'sig': v['sig'], 'detail': v['detail']} for v in run(('api', 0, 0, 1)).violations]
     if 'term' in w:
@@ -513,7 +559,7 @@ def replay(w):
 def describe(tier):
     b = bounds(tier)
     return {
-        'rule': f"every Bool/Num term with <= {b['nodes']} nodes over x @A.x @B.y 1 p @A.p True False xs @A.xs with + - = < and or implies not unary-minus abs len sum max, sets, ranges, xs[..], inclusion and both quantifiers (references therefore occur in operands, set elements, range bounds, indices, accessed objects, quantifier domains and bodies, function arguments); each as expression and (Bool) as predicate: both replacements for aliases Z (unused), A, B compared with the abstract substitution and by evaluation with the alias bound to the message, inverse law, negate (also of predicates derived from an already negated one), event alias rewriting through four construction routes; 32 API-built calls with several arguments (max / min / gcd / atan2 / log) with a reference in each argument position; all ordered pairs of predicates with <= {b['pair_nodes']} nodes for join. x every valuation of the grid. Terms with <= 4 nodes that mention an alias are repeated under two renamings to names with several letters (Pose / msg / Zed; Ab / A / AbZ - one a prefix of the other), passed as str objects of their own.",
+        'rule': f"every Bool/Num term with <= {b['nodes']} nodes over x @A.x @B.y 1 p @A.p True False xs @A.xs with + - = < and or implies not unary-minus abs len sum max, sets, ranges, xs[..], inclusion and both quantifiers (references therefore occur in operands, set elements, range bounds, indices, accessed objects, quantifier domains and bodies, function arguments); each as expression and (Bool) as predicate: both replacements for aliases Z (unused), A, B compared with the abstract substitution and by evaluation with the alias bound to the message, inverse law, negate (also of predicates derived from an already negated one), event alias rewriting through four construction routes; 32 API-built calls with several arguments (max / min / gcd / atan2 / log) with a reference in each argument position; all ordered pairs of predicates with <= {b['pair_nodes']} nodes for join. x every valuation of the grid. Terms with <= 4 nodes that mention an alias are repeated under two renamings to names with several letters (Pose / msg / Zed; Ab / A / AbZ - one a prefix of the other), passed as str objects of their own. Plus an operator matrix: all six comparisons over 7 operand shapes, the four connectives, inclusions and quantifiers at the top of a predicate (and below `not`): negate (once and twice), both replacements, the event rewrite, and join over a slice of the pairs.",
         'bounds': b,
         'exhaustive': True,
         'assumptions': ['reference evaluator; aliases captured by a quantifier are outside the alphabet (quantified variables are i, j)'],
